@@ -3,7 +3,10 @@
         and optional row_group_size; observed: the row counts of the row groups in the file (parquet
         metadata), the rows in the file (pyarrow read_table) and the rows delivered by load_from_file with
         load batch size m, both as runs (start, length) of consecutive indices.
-   CBatch: rs.data.batch(n) alone, what it emits while each row is pushed and at completion. *)
+   CBatch: rs.data.batch(n) alone, what it emits while each row is pushed and at completion.
+   CSkip: a SCALE case (dump or load batches of tens of thousands of rows) that is too large to be evaluated
+        here, the list model being quadratic in the batch size: it is judged by the model-free oracle of
+        harness/props/C20.py alone; never used for an observation that raised. *)
 From Coq Require Import List ZArith NArith Bool Arith.
 From RxVerif Require Import Base.Corr Container.Parquet.
 Import ListNotations.
@@ -11,7 +14,8 @@ Import ListNotations.
 Inductive c20case :=
 | CRaised
 | CPq (k n m : N) (rg : option N) (rg_sizes : list N) (file_runs load_runs : list (N * N)) (completed : bool)
-| CBatch (k n : N) (out : list (list (list N))).
+| CBatch (k n : N) (out : list (list (list N)))
+| CSkip.
 
 Definition expand (runs : list (N * N)) : list N :=
   concat (map (fun r => nseq (fst r) (N.to_nat (snd r))) runs).
@@ -28,4 +32,5 @@ Definition c20_check (c : c20case) : bool :=
       && ns_eqb (load N (N.to_nat m) f) (expand lr)
   | CBatch k n out =>
       list_eqb (list_eqb ns_eqb) (batch_timed N (N.to_nat n) (idx_rows k)) out
+  | CSkip => true
   end.
